@@ -582,10 +582,7 @@ def check_case(ctx, W, case, pending):
         prev = ph
     script = [{'before': e['phase'] == 'before', 'kind': e['kind'], 'obj': e['obj'],
                'calls': [model_ops(c) for c in e['calls']], 'rest': model_ops(e['rest'])} for e in case['script']]
-    if nested and case['action'] == 'entity_flush':
-        # obj.flush() with a query inside an after_* hook: the recursive flush is modelled for cache.flush() only — oracle only here
-        ctx.count('oracle-only:entity_flush-with-query-inside-after-hook'); return
-    if nested: ctx.count('nested:query-inside-after-hook')
+    if nested: ctx.count('nested:query-inside-after-hook' + (':obj.flush()' if case['action'] == 'entity_flush' else ''))
     if any(op[0] == 'query' for e in case['script'] if e['phase'] == 'before' for c in (e['calls'] + [e['rest']]) for op in c): ctx.count('query-inside-before-hook')
     # the statement order of every round, keyed by the number of trace events when its save loop starts
     clog = canon_log(log); orders = []; i = 0
@@ -599,7 +596,7 @@ def check_case(ctx, W, case, pending):
             orders.append([i, obs])
         else: i += 1
     if case['action'] == 'entity_flush':
-        req = {'op': 'entityFlush', 'state': res['init_state'], 'script': script, 'bfuel': 100000, 'obj': res['target']}
+        req = {'op': 'entityFlush', 'state': res['init_state'], 'script': script, 'bfuel': 100000, 'obj': res['target'], 'orders': orders, 'depth': 40}
     else:
         req = {'op': 'flushN', 'state': res['init_state'], 'script': script, 'bfuel': 100000, 'orders': orders, 'depth': 40}
     pending.append((req, res, inp))
